@@ -40,6 +40,14 @@ theorem route_outside_prefix (shimPrefix path : Bytes) (h : ¬ shimPrefix <+: pa
     route shimPrefix path = .wrapped := by
   simp [route, Go.hasPrefix, List.isPrefixOf_iff_prefix, h]
 
+/-- regenerated fact: neither handler constructor on the pass-through path (websockets.Proxy, banner.Proxy) routes
+    through an http.ServeMux, whose path cleaning answers non-canonical paths ("/a//b", "/a/../b") with a redirect
+    of its own; `route` above (a prefix test on the path as received) is therefore the whole routing decision -/
+theorem passthrough_has_no_cleaning_router : agent_passthroughServeMuxes = [] := by decide
+
+/-- a non-canonical path outside the prefix is routed like any other -/
+example : route [47,115,47] [47,97,47,47,98] = .wrapped := by decide
+
 -- non-vacuity: a URL with credentials and a foreign host is confined to the backend
 example : dialOutcome true (websockets_rewriteTarget [98,58,56,48] { Scheme := [119,115,115], Opaque := [], User := some [117], Host := [101,118,105,108], Path := [47,112], RawPath := [], OmitHost := false, ForceQuery := false, RawQuery := [113], Fragment := [], RawFragment := [] }) = .dial [98,58,56,48] := by decide
 
